@@ -507,6 +507,9 @@ SPEC = {
     # registered by the harness at start-up (rv/parserlab.py): a command whose class derives
     # from the stock redirect's class and takes one more required string
     "redirectx": _c("action", pos=["S", "S"], tags=[T_COPY]),
+    # registered by the harness as well: an include-like action whose completion callback
+    # parses ANOTHER script with a Parser of its own while the outer parse is under way
+    "includex": _c("action", pos=["S"]),
     "reject": _c("action", pos=["S"], ext="reject"),
     "setflag": _c("action", pos=["S", "SL"], ext="imap4flags", optfirst=True),
     "addflag": _c("action", pos=["S", "SL"], ext="imap4flags", optfirst=True),
